@@ -1,0 +1,204 @@
+//! Verification hooks.
+//!
+//! Only compiled with `--cfg log4rs_verif`; never part of a normal build.
+//!
+//! A verification harness registers a [`Hooks`] object.  The shim types in this
+//! module (`Mutex`, `ArcSwap`) replace the synchronisation primitives used by
+//! the appenders and the logger; they behave exactly like the originals but
+//! report every operation to the registered hooks first, which lets a
+//! controlled scheduler interleave threads at those operations.  Without
+//! registered hooks every shim is a plain pass-through.
+
+use std::{
+    fmt,
+    sync::{Arc, RwLock},
+    time::Duration,
+};
+
+/// Callbacks a verification harness can install.
+pub trait Hooks: Send + Sync + 'static {
+    /// The current thread is about to perform the synchronisation operation
+    /// `kind` on the object identified by `id`.
+    fn point(&self, _kind: &'static str, _id: usize) {}
+
+    /// The current thread could not acquire the lock `id`.  Returns when it is
+    /// worth trying again.
+    fn blocked(&self, _id: usize) {
+        std::thread::yield_now()
+    }
+
+    /// The current thread acquired the lock `id`.
+    fn acquired(&self, _id: usize) {}
+
+    /// The current thread released the lock `id`.
+    fn released(&self, _id: usize) {}
+
+    /// The time trigger's notion of "now" (`real` is the wall clock).
+    #[cfg(feature = "chrono")]
+    fn now(&self, real: chrono::DateTime<chrono::Local>) -> chrono::DateTime<chrono::Local> {
+        real
+    }
+
+    /// The configuration reloader wants to sleep for `rate`.
+    fn sleep(&self, rate: Duration) {
+        std::thread::sleep(rate)
+    }
+}
+
+static HOOKS: RwLock<Option<Arc<dyn Hooks>>> = RwLock::new(None);
+
+/// Installs (or removes) the process-wide hooks object.
+pub fn set_hooks(hooks: Option<Arc<dyn Hooks>>) {
+    *HOOKS.write().unwrap_or_else(|e| e.into_inner()) = hooks;
+}
+
+fn hooks() -> Option<Arc<dyn Hooks>> {
+    HOOKS.read().unwrap_or_else(|e| e.into_inner()).clone()
+}
+
+/// See [`Hooks::now`].
+#[cfg(feature = "chrono")]
+pub fn now(real: chrono::DateTime<chrono::Local>) -> chrono::DateTime<chrono::Local> {
+    match hooks() {
+        Some(h) => h.now(real),
+        None => real,
+    }
+}
+
+/// See [`Hooks::sleep`].
+pub fn sleep(rate: Duration) {
+    match hooks() {
+        Some(h) => h.sleep(rate),
+        None => std::thread::sleep(rate),
+    }
+}
+
+/// Drop-in replacement for `parking_lot::Mutex` that reports to the hooks.
+#[cfg(feature = "parking_lot")]
+pub struct Mutex<T> {
+    inner: parking_lot::Mutex<T>,
+}
+
+/// Guard of the shim [`Mutex`].
+#[cfg(feature = "parking_lot")]
+pub struct MutexGuard<'a, T> {
+    guard: Option<parking_lot::MutexGuard<'a, T>>,
+    id: usize,
+    hooks: Option<Arc<dyn Hooks>>,
+}
+
+#[cfg(feature = "parking_lot")]
+impl<T> Mutex<T> {
+    /// Creates a new mutex.
+    pub fn new(value: T) -> Mutex<T> {
+        Mutex {
+            inner: parking_lot::Mutex::new(value),
+        }
+    }
+
+    /// Acquires the mutex.
+    pub fn lock(&self) -> MutexGuard<'_, T> {
+        let id = self as *const Mutex<T> as *const u8 as usize;
+        match hooks() {
+            None => MutexGuard {
+                guard: Some(self.inner.lock()),
+                id,
+                hooks: None,
+            },
+            Some(h) => loop {
+                h.point("lock", id);
+                if let Some(guard) = self.inner.try_lock() {
+                    h.acquired(id);
+                    return MutexGuard {
+                        guard: Some(guard),
+                        id,
+                        hooks: Some(h),
+                    };
+                }
+                h.blocked(id);
+            },
+        }
+    }
+}
+
+#[cfg(feature = "parking_lot")]
+impl<T> std::ops::Deref for MutexGuard<'_, T> {
+    type Target = T;
+
+    fn deref(&self) -> &T {
+        self.guard.as_ref().unwrap()
+    }
+}
+
+#[cfg(feature = "parking_lot")]
+impl<T> std::ops::DerefMut for MutexGuard<'_, T> {
+    fn deref_mut(&mut self) -> &mut T {
+        self.guard.as_mut().unwrap()
+    }
+}
+
+#[cfg(feature = "parking_lot")]
+impl<T> Drop for MutexGuard<'_, T> {
+    fn drop(&mut self) {
+        self.guard = None;
+        if let Some(h) = self.hooks.take() {
+            h.released(self.id);
+        }
+    }
+}
+
+/// Drop-in replacement for `arc_swap::ArcSwap` that reports to the hooks.
+pub struct ArcSwap<T> {
+    inner: arc_swap::ArcSwap<T>,
+}
+
+impl<T> ArcSwap<T> {
+    /// Creates a new swap cell.
+    pub fn new(value: Arc<T>) -> ArcSwap<T> {
+        ArcSwap {
+            inner: arc_swap::ArcSwap::new(value),
+        }
+    }
+
+    fn id(&self) -> usize {
+        self as *const ArcSwap<T> as *const u8 as usize
+    }
+
+    /// Loads the current value.
+    pub fn load(&self) -> arc_swap::Guard<Arc<T>> {
+        if let Some(h) = hooks() {
+            h.point("load", self.id());
+        }
+        self.inner.load()
+    }
+
+    /// Loads the current value as a full `Arc`.
+    pub fn load_full(&self) -> Arc<T> {
+        if let Some(h) = hooks() {
+            h.point("load", self.id());
+        }
+        self.inner.load_full()
+    }
+
+    /// Replaces the value.
+    pub fn store(&self, value: Arc<T>) {
+        if let Some(h) = hooks() {
+            h.point("store", self.id());
+        }
+        self.inner.store(value)
+    }
+
+    /// Replaces the value, returning the old one.
+    pub fn swap(&self, value: Arc<T>) -> Arc<T> {
+        if let Some(h) = hooks() {
+            h.point("store", self.id());
+        }
+        self.inner.swap(value)
+    }
+}
+
+impl<T: fmt::Debug> fmt::Debug for ArcSwap<T> {
+    fn fmt(&self, f: &mut fmt::Formatter<'_>) -> fmt::Result {
+        fmt::Debug::fmt(&self.inner, f)
+    }
+}
